@@ -1003,6 +1003,21 @@ func (e *Engine) builtin(ci *cInstr, bi *ssa.Builtin, c *ssa.CallCommon, args []
 			}
 		}
 		return nil
+	case "SliceData":
+		// unsafe.SliceData: kept as the slice itself; only unsafe.String reads it back
+		return sliceData{args[0].(Sl)}
+	case "String":
+		// unsafe.String(unsafe.SliceData(b), n): the first n bytes as an (immutable) string
+		sd, ok := args[0].(sliceData)
+		if !ok {
+			e.unsupported("unsafe.String of a pointer that is not slice data")
+		}
+		n := e.argInt(args[1], "unsafe.String length")
+		b := make([]Sc, n)
+		for i := 0; i < n; i++ {
+			b[i] = sd.s.a[i].(Sc)
+		}
+		return mkStr(b)
 	case "print", "println":
 		return nil
 	case "recover":
@@ -1016,6 +1031,9 @@ func (e *Engine) builtin(ci *cInstr, bi *ssa.Builtin, c *ssa.CallCommon, args []
 	e.unsupported("builtin %s", bi.Name())
 	return nil
 }
+
+// sliceData is the result of unsafe.SliceData.
+type sliceData struct{ s Sl }
 
 // symLen is the length of a string containing formatted symbolic numbers: each atom contributes a
 // fresh length variable constrained to the range its formatter can produce.
